@@ -1018,6 +1018,12 @@ def x_reduce(c):
     return unknown_callable(c, "functools.reduce over a non-literal sequence")
 
 
+@ext("itertools.chain")
+def x_chain(c):
+    """chain(a, b, ...): iterating it iterates a, then b, ... (unfolded by the loop rules)"""
+    c.ret(None)
+
+
 @ext("collections.Counter")
 def x_counter(c):
     """Counter(iterable of hashables): a dict of counts"""
